@@ -27,8 +27,7 @@ PROP = dict(
                 "generate_proof, on every tree reached by a history, returns an inclusion proof exactly when the key is present, with exactly those siblings, and that this "
                 "proof verifies; the model is tied to the Rust code by a differential run including a structured mutation stream on every check"),
     level_note=("Trusted: Coq kernel; hand-written L1 model tied to the Rust code by correspondence testing (testing, not proof); collision-freeness premise; harness. "
-                "Proofs generated on trees built by from_set rely on the from_set refinement, which is open (Properties/C12.v); they are exercised by the correspondence run "
-                "and the reference-proof oracle."),
+                "Trees built by from_set are covered through C12_from_set (from_set leaves the set's map persisted, Properties/C12.v), so C14_generate_proof applies to them as well."),
     technique="Coq proof (loop/recursion equivalence, induction on the path with hash injectivity) + differential model/impl run with proof mutations",
     design_ref="6/C14",
 )
